@@ -240,6 +240,23 @@ def c07_named_rotation_pairs(seed):
                tables=tables, K=2, strings_list=[], label='named_rotation/%s/rules' % p) for p in ('P', 'Q')]
 
 
+def c07_dnf_pairs(seed):
+  """a parenthesised disjunction at different positions of a conjunction (first, middle, last), flat and
+  nested: the disjunctive normal form must not depend on where it stands"""
+  rnd = random.Random(seed ^ 0xd07)
+  A = gen.A
+  x, y, z = Var('x'), Var('y'), Var('z')
+  d1 = Disj([Cmp('==', x, Num(rnd.choice([0, 1, 2]))), Cmp('>', x, Num(rnd.choice([2, 3]))), A('F', x, x)][:rnd.choice([2, 3])])
+  if seed % 2:
+    d1 = Disj([Conj([A('F', x, z), Disj([Cmp('<', z, Num(1)), A('G', z)])]), Cmp('==', x, Num(2))])
+  others = [A('E', x, y), A('G', y), Cmp('!=', x, y)][:rnd.choice([2, 3])]
+  orders = [[d1] + others, others + [d1], others[:1] + [d1] + others[1:]]
+  progs = [Program([Rule('P', [x, y], body=Conj(o))], [], gen.EXT) for o in orders]
+  tables = sorted({t for t in ('E', 'F', 'G') if (t + '(') in progs[0].text()})
+  return [dict(a=Side(progs[0].text(), 'P', label='disjunction first'), b=Side(pb.text(), 'P', label='conjuncts'),
+               tables=tables, K=2, strings_list=[], label='dnf_position/%d/conjuncts' % i) for i, pb in enumerate(progs[1:])]
+
+
 def c07_pairs(seed):
   rnd = random.Random(seed ^ 0xc07)
   case = base_case(seed)
@@ -1123,6 +1140,17 @@ class ImportSide(Side):
     finally:
       shutil.rmtree(d, ignore_errors=True)
     return side
+
+  def run_real(self, schema, rows):
+    """the split program on real SQLite (files written to a scratch directory)"""
+    import shutil
+    from . import e1, real
+    d, root = self._materialise()
+    try:
+      c = real.compile_pred(self.text, self.pred, import_root=root)
+      return e1.run_real(c.statements(), schema, rows)
+    finally:
+      shutil.rmtree(d, ignore_errors=True)
 
 
 def module_rules(rnd, uses=None, own='P', style=0):
